@@ -1,5 +1,8 @@
 (* C01 — property theorems (statements only; proofs live in proofs/ and model/). *)
-From Clip Require Import base.Geom base.Winding base.Region base.Dist model.RegionCheck.
+From Coq Require Import ZArith List.
+From Clip Require Import base.Geom base.Winding base.Region base.Dist base.CSem model.RegionCheck.
+From Clip Require Import gen.Gen_core gen.Gen_engine model.Sweep1D proofs.Sweep1D_main proofs.Sweep1D_gen.
+Import ListNotations.
 Local Open Scope Z_scope.
 
 (* The sampled checker the oracle runs is sound w.r.t. the Coq specification: an empty list of failures
@@ -10,3 +13,63 @@ Theorem C01_sample_check_sound : forall ct fr rev S C tn td pts out,
   wn_paths out q = expected ct fr rev (wn_paths S q) (wn_paths C q).
 Proof. exact check_prep_sound. Qed.
 Print Assumptions C01_sample_check_sound.
+
+(* ------------------------------------------------------------------------------------------------------------
+   The decision logic of the sweep, for ALL event histories and all 16 fill rule x clip type combinations.
+   Model: model/Sweep1D.v (AEL = list of edges with wind_dx, wind_cnt, wind_cnt2, hot side; events = insertion of a
+   local minimum, intersection of two adjacent edges, removal of a maxima pair, open-path ends; `step` mirrors
+   InsertLocalMinimaIntoAEL/SetWindCountFor*PathEdge/IsContributing*/IntersectEdges/AddLocalMinPoly's side
+   assignment/AddLocalMaxPoly's failure test).  Tie to the code: the contribution tables are the ones cpp2v
+   regenerates from clipper.engine.cpp on every run (Sweep1D_gen); set_wind_*, update_counts, select_action and the
+   side assignment are compared exactly with the real functions on synthetic AELs (checks/C01.py kernel_tie), and the
+   decidable invariant inv_b is evaluated on AEL snapshots of real runs.
+   NOT proved (validated by the sampled specification comparison): that the event sequence the engine executes is
+   the true arrangement of the input (TopX / intersection rounding / horizontals), that AddOutPt/JoinOutrecPaths
+   assemble exactly the hot edges into rings, and that CleanCollinear/FixSelfIntersects move the boundary by < 2 units.
+   ------------------------------------------------------------------------------------------------------------ *)
+
+(* the invariant: every closed edge carries the winding number farther from zero of its own type, the other type's
+   winding number, and is hot on the side (Front = region to its right is inside) the specified region dictates;
+   every open edge is hot exactly where open paths are kept *)
+Theorem C01_step_preserves : forall ct fr a ev,
+  ct <> NoClip -> inv_b ct fr a = true -> wf_event a ev = true ->
+  exists a', step ct fr a ev = Some a' /\ inv_b ct fr a' = true.
+Proof. exact step_preserves. Qed.
+Print Assumptions C01_step_preserves.
+
+(* ... hence in every state reachable by any well-formed event history, and the engine never clears succeeded_ *)
+Theorem C01_reachable : forall ct fr evs,
+  ct <> NoClip -> wf_trace ct fr [] evs = true ->
+  exists a, run ct fr [] evs = Some a /\ inv_b ct fr a = true.
+Proof. exact reachable_inv. Qed.
+Print Assumptions C01_reachable.
+
+(* in such a state the edges the TRANSLATED IsContributingClosed selects are exactly the boundary of the region
+   {q | in_result ct fr (wS q) (wC q)}, and exactly those are hot *)
+Theorem C01_contributing_is_boundary : forall ct fr pre e post,
+  inv_b ct fr (pre ++ e :: post) = true -> eopen e = false ->
+  IsContributingClosed (ct_code ct) (fr_code fr) (to_active e) =
+    xorb (in_result ct fr (Wsum Subj pre) (Wsum Clp pre))
+         (in_result ct fr (Wsum Subj pre + contrib Subj e) (Wsum Clp pre + contrib Clp e))
+  /\ is_hot e = IsContributingClosed (ct_code ct) (fr_code fr) (to_active e).
+Proof. exact translated_contributing_is_boundary. Qed.
+Print Assumptions C01_contributing_is_boundary.
+
+(* "covers exactly those points, each once", on every scanline of every reachable state: walking right from
+   -infinity, contours entered (Front) minus contours left (Back) after i edges = 1 inside the specified region, 0 outside *)
+Theorem C01_net_winding : forall ct fr a i,
+  inv_b ct fr a = true ->
+  zsum (map side_val (firstn i a)) =
+  b2z (in_result ct fr (Wsum Subj (firstn i a)) (Wsum Clp (firstn i a))).
+Proof. exact net_winding. Qed.
+Print Assumptions C01_net_winding.
+
+(* partial: decision logic only (see the comment above for what is validated instead of proved) *)
+Definition C01_region_partial := (C01_reachable, C01_net_winding, C01_contributing_is_boundary).
+
+(* the premises are satisfiable: a subject and a clip polygon crossing twice *)
+Example C01_nonvacuous :
+  let evs := [EInsert 0 Subj (-1) false; EInsert 1 Clp (-1) false; ESwap 2 false; ESwap 1 true; ERemove 0] in
+  wf_trace Intersection NonZero [] evs = true /\
+  exists a, run Intersection NonZero [] evs = Some a /\ inv_b Intersection NonZero a = true /\ length a = 2%nat.
+Proof. exact inv_nonvacuous. Qed.
